@@ -5,7 +5,7 @@ CONSTANTS
   MaxMembers = 1
   MaxMAttrs = 2
   DTs = {"struct", "enum"}
-  Shapes = {"named"}
+  Shapes = {"named", "unit"}
   TNames = {"map"}
   Hints = {"-"}
   TMenu = {"ghosts", "where_clause", "child_parents"}
